@@ -96,8 +96,9 @@ def mypy_expression_to_sds_type(expr: mp_nodes.Expression) -> sds_types.Abstract
     if isinstance(expr, mp_nodes.NameExpr):
         if expr.name in {"False", "True"}:
             return sds_types.NamedType(name="bool", qname="builtins.bool")
-        else:
+        elif expr.name == "None" or not isinstance(expr.node, mp_nodes.Var):
             return sds_types.NamedType(name=expr.name, qname=expr.fullname)
+        # The name of a variable or parameter is not the type of its value
     elif isinstance(expr, mp_nodes.IntExpr):
         return sds_types.NamedType(name="int", qname="builtins.int")
     elif isinstance(expr, mp_nodes.FloatExpr):
